@@ -155,6 +155,10 @@ def oracle(ctx, scale):
 
     rng = ctx.rng
     g = ctx.nprng()
+    for _ in range(ctx.n(6, 120) * scale):
+        _e2e(ctx)
+        if ctx.violations:
+            return
     for k in range(ctx.n(80, 2500) * scale):
         rows, refs, G, s, phis, cplx = _case(ctx)
         nref = len(refs[0])
@@ -223,12 +227,76 @@ def oracle(ctx, scale):
             ctx.count("through_MultiSetup_PoSER")
 
 
+def _e2e(ctx):
+    """setups whose shapes come from SSI runs on noise-free data of one global system recorded with different amplitudes"""
+    import math
+
+    import sysgen
+    from pyoma2.algorithms import SSIcov
+    from pyoma2.setup import MultiSetup_PoSER, SingleSetup
+
+    rng = ctx.rng
+    g = ctx.nprng()
+    rows, refs, nglob, nref = _layout(ctx)
+    rows, refs = rows[:3], refs[:3]
+    if len(rows) < 2:
+        return
+    nglob = max(max(c) for c in rows) + 1
+    m = rng.randint(1, 3)
+    S = sysgen.random_system(rng, g, m, nglob, rng.choice([50.0, 100.0]), complex_shapes=False)
+    if np.min(np.abs(S.phi[:nref, :]).max(axis=0)) < 0.3:
+        ctx.skipped += 1
+        return
+    setups = []
+    hc = dict(conj=False, xi_max=1.0, mpc_lim=0.0, mpd_lim=math.pi / 2, cov_max=1e9)
+    order = np.argsort(S.fn)
+    for i, chan in enumerate(rows):
+        idx = sysgen.observability_index(S, chan)
+        if idx is None or len(chan) < 2:  # a one-sensor setup has no defined MPC/MPD (hard criteria blank its poles)
+            ctx.skipped += 1
+            return
+        amp = g.standard_normal(m) + 1j * g.standard_normal(m)
+        amp /= np.abs(amp)
+        y = S.response(rng.randint(500, 900), amp)[:, chan] * 10 ** rng.uniform(-2, 2)
+        ss = SingleSetup(y, fs=S.fs)
+        br = idx + 1 + rng.randint(0, 2)
+        alg = SSIcov(name=f"s{i}", br=br, ordmax=min(2 * m, (br + 1) * len(chan), br * len(chan)), method="cov_mm", hc=hc)
+        ss.add_algorithms(alg)
+        ss.run_by_name(alg.name)
+        if alg.run_params.ordmax < 2 * m:
+            ctx.skipped += 1
+            return
+        sv = np.linalg.svd(alg.result.H, compute_uv=False)
+        if sv[2 * m - 1] / sv[0] < 1e-7:
+            ctx.skipped += 1
+            return
+        ss.mpe(alg.name, sel_freq=[float(S.fn[k]) for k in order], order=2 * m, rtol=1e-3)
+        if alg.result.Fn is None or len(alg.result.Fn) != m:
+            ctx.skipped += 1
+            return
+        setups.append(ss)
+    ms = MultiSetup_PoSER(ref_ind=[list(r) for r in refs], single_setups=setups, names=["ssi"])
+    res = ms.merge_results()["ssi"]
+    glob = _expected_order(rows, refs)
+    ctx.oracle_cases += 1
+    ctx.count("e2e_ssi_poser")
+    inp = {"rows": rows, "refs": refs, "fn": S.fn.tolist(), "xi": S.xi.tolist(), "phi": S.phi.tolist(), "fs": S.fs, "kind": "e2e-ssi"}
+    for j, k in enumerate(order):
+        mc = sysgen.mac(res.Phi[:, j], S.phi[glob, k])
+        if 1 - mc > 1e-8 or abs(res.Fn[j] - S.fn[k]) > 1e-8 * S.fn[k] or abs(res.Xi[j] - S.xi[k]) > 1e-8:
+            ctx.violation("e2e-merge", f"PoSER merge of SSI results on noise-free data: mode {j}: MAC {mc:.10f}, Fn {res.Fn[j]} vs {S.fn[k]}, Xi {res.Xi[j]} vs {S.xi[k]}", inp)
+            return
+
+
 def replay(rec):
     from pyoma2.functions import gen
 
     v = rec["violation"]
     inp = v["input"]
     print("replaying", v["sig"], "-", v["what"])
+    if inp.get("kind") == "e2e-ssi":
+        print("end-to-end case: re-run `VERIF_SEED=%d ./check C02` (system: fn %s)" % (rec["seed"], inp["fn"]))
+        return 0
     G = np.array([[complex(x) for x in r] for r in inp["G"]])
     s = np.array(inp["s"])
     rows, refs = inp["rows"], inp["refs"]
